@@ -118,6 +118,27 @@ def h_index_kind_mismatch(B, p=2):
         B.check("sample labels are those of the new data", list(tr["time"].values) == [100, 101], str(list(tr["time"].values)))
 
 
+def h_multi(B, n=4, m=2):
+    import xeofs.multi as xm
+
+    Xs = [da2d(B, f"x{i}", n, 2, feat=f"f{i}") for i in range(2)]
+    model = xm.CCA(n_modes=2, pca=False)
+    model.fit(Xs, "time")
+    B.covers("multi.CCA.transform (new data)")
+    lab = [100 + i for i in range(m)]
+    Xn = [da2d(B, f"xn{i}", m, 2, feat=f"f{i}", scoords=lab) for i in range(2)]
+    tr = B.completes("multi.CCA.transform(new views) runs", lambda: model.transform(Xn))
+    if tr is None:
+        return
+    for i, t in enumerate(tr):
+        B.check(f"view {i}: sample labels are those of the new data", list(t["time"].values) == lab, f"got {list(t['time'].values)}")
+        B.check(f"view {i}: no NaN", not _has_nan(B, t), "NaN entries in the result")
+    ta = model.transform([x.isel(time=[0]) for x in Xn])
+    tb = model.transform([x.isel(time=slice(1, None)) for x in Xn])
+    for i in range(2):
+        B.eq(f"view {i}: transform(concat)==concat(transform)", tr[i], xr.concat([ta[i], tb[i]], dim="time"))
+
+
 def h_multiindex(B, cls="EOF", p=2, k=2):
     """two sample dimensions: fitted on (t1,t2) grid, new data on another grid"""
     X, dim, fdims = M.make_input(B, "multiindex", 4, p, False, {})
@@ -182,6 +203,8 @@ def configs(tier):
         cfg = {"key": key, "fn": fn, "params": params}
         if fn == "h_cross":
             cfg["options"] = {"full_rank": True}
+        if fn == "h_multi":
+            cfg["options"] = {"full_rank": True, "eigvalsh_psd": True}
         out.append(cfg)
 
     labs = ["disjoint", "overlap", "repeated"] if tier == "quick" else list(LABELS)
@@ -195,6 +218,7 @@ def configs(tier):
     add("h_single", "EOF|normalized|disjoint", cls="EOF", labels="disjoint", normalized=True)
     add("h_single", "EOF|m1|disjoint", cls="EOF", labels="disjoint", m=1)
     add("h_multiindex", "EOF|two sample dims")
+    add("h_multi", "multi.CCA|new data")
     add("h_index_kind_mismatch", "EOF|fit MultiIndex sample, new plain index")
     add("h_missing_new", "EOF|new data: repeated labels + one missing sample", labels=(100, 100, 101), missing=(1,))
     add("h_missing_new", "EOF|new data: unique labels + first sample missing", labels=(100, 101, 102), missing=(0,))
